@@ -27,6 +27,43 @@ def gen_jobs(rng, sc, ncases, ev, flags="b", tag="c"):
     return jobs
 
 
+def nested_dir_walks(rng, sc, ev, flags="b"):
+    """directories inside directories, left and re-entered: an outer directory, an inner one with something in it, then an entry that is still
+    inside the outer one but elsewhere (a longer sibling path, a shorter one, a name that begins like the inner one, a directory), then entries
+    outside - with every choice of which directories the caller extracts, under each policy.  When each directory comes back is Reader.tla's
+    (end_of_top_dir compares stored paths)."""
+    jobs = []
+    k = 0
+    for inner in (b"c", b"cc"):
+        for depth3 in (False, True):
+            for sib in (("file", b"a/b/two"), ("dir", b"a/b"), ("file", b"a/bcd/two"), ("file", b"a/three"), ("file", b"a/" + inner + b"2"),
+                        ("dir", b"a/" + inner + b"d"), ("file", b"ab/x"), ("file", b"a/" + inner + b"/again"), ("file", b"a/b/c/d/deep")):
+                ms = [RG.G("dir", b"a"), RG.G("dir", b"a/" + inner)]
+                if depth3:
+                    ms.append(RG.G("dir", b"a/" + inner + b"/d"))
+                    ms.append(RG.G("file", b"a/" + inner + b"/d/zero", data=b"0"))
+                ms.append(RG.G("file", b"a/" + inner + b"/one", data=b"1"))
+                ms.append(RG.G(sib[0], sib[1], data=b"2") if sib[0] == "file" else RG.G("dir", sib[1]))
+                ms.append(RG.G("file", b"a/three3", data=b"3"))
+                ms.append(RG.G("file", b"z", data=b"z"))
+                dirs = [i for i, m in enumerate(ms) if m.kind == "dir"]
+                subsets = [set(dirs), {dirs[0]}, {dirs[1]}, set(dirs[:2])] + ([{dirs[0], dirs[2]}] if depth3 else [])
+                for pol in ("eod", "eof", "plain"):
+                    a, g = RG.write_case(sc, "nest%d%s" % (k, pol), ms, pol)
+                    for si, sub in enumerate(subsets):
+                        xd = os.path.join(sc, "xnest%d%s%d" % (k, pol, si))
+                        os.makedirs(xd)
+                        ops = []
+                        for i in range(len(ms)):
+                            ops += ["N", "X"] if i in sub else ["N"]
+                        ops += ["N", "X"] * len(dirs) + ["N", "N"]
+                        jobs.append("exec %s %s %s %s %s 0 %s %s" % (g, a, ["path", "cb", "FILE"][(k + si) % 3], pol, xd, flags, ",".join(ops)))
+                k += 1
+    ev.set("nested_directory_walks", len(jobs))
+    ev.cls(("nested-dir-walks", len(jobs)))
+    return jobs
+
+
 def deferred_orders(rng, sc, ev, flags="b"):
     """several dangerous symbolic links of different (and equal) path lengths in every order of arrival, all extracted: the
     re-presentation order (longest first, later arrivals before earlier ones of the same length) is Reader.tla's"""
@@ -129,7 +166,7 @@ def run(tier, seed, ev):
         mc = ex.submit(V.tlc_must_pass, "MC_Reader", "MC_Reader_c15" if tier == "quick" else "MC_Reader_c15_t",
                        workers=8, xmx="12g", timeout=2400 if tier == "quick" else 9000)
         drv = V.build_driver("reader_drv", "san", wrap=True)
-        jobs = gen_jobs(rng, sc, 150 if tier == "quick" else 2500, ev) + tlc_scripts(seed, tier, sc, ev) + deferred_orders(rng, sc, ev)
+        jobs = gen_jobs(rng, sc, 150 if tier == "quick" else 2500, ev) + tlc_scripts(seed, tier, sc, ev) + deferred_orders(rng, sc, ev) + nested_dir_walks(rng, sc, ev)
         res = TR.run_sharded(drv, jobs, sc, "gen")
         viols, good = TR.validate_all("Trace_Reader", "Trace_Reader", res, ev, "C15")
         # two readers over two archives: interleaved call by call, and on two threads; each reader's
